@@ -549,11 +549,8 @@ func verifyPreAgg(f immutable.TSSPFile, cm *immutable.ChunkMeta, s *mSeries, str
 				return e
 			}
 			gs, ok := metaSum(cmeta).(float64)
-			if ok && math.IsNaN(sum) && haveMn && mn == 0 && mx == 0 && !strict {
-				// known finding C07-preagg-zero-nan-sum (replays/C07/file_preagg_zero_nan_sum.json): the self-compressed form of
-				// the float statistics drops the sum when min == max == 0, although NaN values make the sum NaN
-				out.excluded[exclPreaggZeroNaN]++
-			} else if !ok || !(gs == sum || math.IsNaN(gs) && math.IsNaN(sum)) {
+			// (C07-preagg-zero-nan-sum, fixed in /repo: no exclusion any more; replays/C07/file_preagg_zero_nan_sum.json is the regression case)
+			if !ok || !(gs == sum || math.IsNaN(gs) && math.IsNaN(sum)) {
 				return fmt.Errorf("column %q (float): pre-aggregated sum %v, want %v", c.Name, metaSum(cmeta), sum)
 			}
 			if !haveMn {
@@ -595,10 +592,8 @@ func verifyPreAgg(f immutable.TSSPFile, cm *immutable.ChunkMeta, s *mSeries, str
 			}
 			// known finding C07-preagg-bool-null-time (replays/C07/file_preagg_bool_null_time.json): BooleanPreAgg.addValues
 			// indexes the time column by the position among the non-null values, so with nulls the time is that of another row
-			timeChecked := strict || cnt == int64(m.rows())
-			if !timeChecked {
-				out.excluded[exclPreaggBoolTime]++
-			}
+			// (C07-preagg-bool-null-time, fixed in /repo: the time is checked for every column; replays/C07/file_preagg_bool_null_time.json is the regression case)
+			timeChecked := true
 			if cmeta, e = read("min"); e != nil {
 				return e
 			}
